@@ -276,6 +276,19 @@ func (e *Enc) finish(ur *UnitResult, opt runOpts) {
 		}
 		e.queries = keep
 	}
+	for _, q := range e.queries {
+		for suffix, ps := range e.L.contracts.suffixProps {
+			if strings.HasSuffix(q.Name, suffix) {
+				have := append([]string{}, ur.Props[q.Name]...)
+				for _, p := range ps {
+					if !hasProp(have, p) {
+						have = append(have, p)
+					}
+				}
+				ur.Props[q.Name] = have
+			}
+		}
+	}
 	e.addAxioms()
 	ur.ctorKeys = map[string]string{}
 	for _, c := range e.tb.ifaceCtors {
